@@ -1,0 +1,110 @@
+//! Verification hooks (only compiled with `--cfg typeshare_verif`).
+//!
+//! They turn the process into a controlled scheduler at the points where
+//! `parallel_parse` touches shared state: with `TYPESHARE_VERIF_SCHEDULE=l1,l2,…`
+//! every labelled point blocks until all earlier labels of the schedule have
+//! passed. Labels that do not occur in the schedule pass freely. Without the
+//! environment variables nothing changes.
+use std::{
+    cell::RefCell,
+    path::Path,
+    sync::{
+        atomic::{AtomicUsize, Ordering},
+        Condvar, Mutex, OnceLock,
+    },
+    time::Duration,
+};
+
+struct Seq {
+    labels: Vec<String>,
+    next: Mutex<usize>,
+    cv: Condvar,
+}
+
+fn seq() -> Option<&'static Seq> {
+    static SEQ: OnceLock<Option<Seq>> = OnceLock::new();
+    SEQ.get_or_init(|| {
+        std::env::var("TYPESHARE_VERIF_SCHEDULE").ok().map(|s| Seq {
+            labels: s
+                .split(',')
+                .map(|l| l.trim().to_string())
+                .filter(|l| !l.is_empty())
+                .collect(),
+            next: Mutex::new(0),
+            cv: Condvar::new(),
+        })
+    })
+    .as_ref()
+}
+
+thread_local! {
+    static CURRENT: RefCell<String> = const { RefCell::new(String::new()) };
+}
+
+static RECV: AtomicUsize = AtomicUsize::new(0);
+
+/// Remember which file the current walker thread is working on.
+pub fn enter_file(path: &Path) {
+    let stem = path
+        .file_stem()
+        .map(|s| s.to_string_lossy().into_owned())
+        .unwrap_or_default();
+    CURRENT.with(|c| *c.borrow_mut() = stem);
+}
+
+/// A point labelled `<kind>:<current file stem>`.
+pub fn file_point(kind: &str) {
+    let label = CURRENT.with(|c| format!("{kind}:{}", c.borrow()));
+    point(&label);
+}
+
+/// The k-th receive of the collector: `recv:1`, `recv:2`, …
+pub fn recv_point() {
+    let k = RECV.fetch_add(1, Ordering::SeqCst) + 1;
+    point(&format!("recv:{k}"));
+}
+
+pub fn point(label: &str) {
+    let Some(seq) = seq() else { return };
+    let Some(pos) = seq.labels.iter().position(|l| l == label) else {
+        return;
+    };
+    let mut next = seq.next.lock().unwrap();
+    let mut waited = Duration::ZERO;
+    while *next < pos {
+        let (g, t) = seq
+            .cv
+            .wait_timeout(next, Duration::from_millis(50))
+            .unwrap();
+        next = g;
+        if t.timed_out() {
+            waited += Duration::from_millis(50);
+            if waited > Duration::from_secs(20) {
+                eprintln!("verif: schedule infeasible at {label}");
+                std::process::exit(97);
+            }
+        }
+    }
+    if *next == pos {
+        *next = pos + 1;
+        if std::env::var_os("TYPESHARE_VERIF_TRACE").is_some() {
+            eprintln!("verif: passed {label}");
+        }
+        seq.cv.notify_all();
+    }
+}
+
+/// Dropped when the collector closure returns (after the receiver has been dropped).
+pub struct CollectorGuard;
+impl Drop for CollectorGuard {
+    fn drop(&mut self) {
+        point("collector_exit");
+    }
+}
+
+/// `TYPESHARE_VERIF_THREADS=n` fixes the number of walker threads.
+pub fn threads() -> Option<usize> {
+    std::env::var("TYPESHARE_VERIF_THREADS")
+        .ok()
+        .and_then(|n| n.parse().ok())
+}
